@@ -11,8 +11,10 @@ def parse(text):
     return ExpressionParser().parse(text)
 
 
-def too_big(sh):
-    return MR._max_abs_const(sh) > MR.MAX_CONST or S.size(sh) > 160 or S.depth(sh) > 40
+def too_big(sh, big=False):
+    """big=True: the caller drives no factoring rule, so constants may grow to 1e60"""
+    limit = 10 ** 60 if big else MR.MAX_CONST
+    return MR._max_abs_const(sh) > limit or S.size(sh) > 160 or S.depth(sh) > 40
 
 
 def safe_to_evaluate(root, ctx=None):
